@@ -322,7 +322,7 @@ func (e *strEnv) execLoop(l *LoopRec, limit int) bool {
 		if sel.End == "break" {
 			break
 		}
-		if count < 0 && l.Post != nil {
+		if count < 0 && (l.Post != nil || l.PostStep != nil) {
 			if e.ctx == nil {
 				return false
 			}
@@ -839,7 +839,7 @@ func (c *Ctx) foldLoopMem(l *LoopRec, hook func(Term) (sval, bool), limit int, m
 			return state, "" // left by break: the post statement does not run
 		}
 		// post statement on integers
-		if l.Post != nil {
+		if l.Post != nil || l.PostStep != nil {
 			ints := map[types.Object]int64{}
 			for o, v := range state {
 				if v.K == 'i' {
